@@ -7,6 +7,7 @@ package c08
 import (
 	"bytes"
 	"context"
+	"encoding/hex"
 	"errors"
 	"fmt"
 	"net"
@@ -41,7 +42,8 @@ type ExtractCase struct {
 	Syscall string `json:"syscall,omitempty"`
 	When    int    `json:"when,omitempty"`
 	Errno   string `json:"errno,omitempty"`
-	Bad     string `json:"bad,omitempty"` // self-test only: "unlink-dest" = the harness removes the destination after the death
+	Digest  string `json:"digest,omitempty"` // "" = sha512-256 | sha256: index, store objects and `desync --digest sha256`
+	Bad     string `json:"bad,omitempty"`    // self-test only: "unlink-dest" = the harness removes the destination after the death
 }
 
 func (c ExtractCase) straced() bool { return c.Death == "strace-kill" || c.Death == "strace-err" }
@@ -310,6 +312,9 @@ func (c ExtractCase) normalise() ExtractCase {
 	if c.K < 0 {
 		c.K = 0
 	}
+	if c.Digest != "sha256" {
+		c.Digest = ""
+	}
 	switch c.Death {
 	case "err":
 	case "strace-kill", "strace-err":
@@ -332,13 +337,19 @@ func runExtract(c ExtractCase) (o hx.Outcome) {
 		infra("VERIF_DESYNC_BIN is not set (the extract part needs the freshly built CLI)")
 	}
 	// ---- world
+	sha := c.Digest == "sha256"
+	xid := func(b []byte) string { s := ref.ID(b, sha); return hex.EncodeToString(s[:]) }
+	var global []string // flags of the root command, in front of the subcommand
+	if sha {
+		global = []string{"--digest", "sha256"}
+	}
 	plain := make([][]byte, len(c.Chunks))
 	ids := make([]string, len(c.Chunks))
 	objs := map[string][]byte{}
 	var minL, maxL uint64 = 1 << 62, 0
 	for i, cs := range c.Chunks {
 		plain[i] = cs.bytes()
-		ids[i] = plainID(plain[i])
+		ids[i] = xid(plain[i])
 		objs[chunkRel(ids[i], true)] = storedForm(plain[i], true)
 		if l := uint64(len(plain[i])); l < minL {
 			minL = l
@@ -352,11 +363,14 @@ func runExtract(c ExtractCase) (o hx.Outcome) {
 	type pos struct{ start, end int }
 	positions := map[string][]pos{}
 	distinct := map[string]bool{}
-	nullID := plainID(make([]byte, maxL))
+	if sha { // desync reads "flag absent" as SHA256 and refuses an index whose flag contradicts --digest
+		idxf.Flags &^= ref.FlagSHA512256
+	}
+	nullID := xid(make([]byte, maxL))
 	for _, l := range c.Layout {
 		start := len(blob)
 		blob = append(blob, plain[l]...)
-		idxf.Items = append(idxf.Items, ref.IndexItem{End: uint64(len(blob)), ID: ref.ID(plain[l], false)})
+		idxf.Items = append(idxf.Items, ref.IndexItem{End: uint64(len(blob)), ID: ref.ID(plain[l], sha)})
 		positions[ids[l]] = append(positions[ids[l]], pos{start, len(blob)})
 		if ids[l] != nullID {
 			distinct[ids[l]] = true
@@ -403,7 +417,7 @@ func runExtract(c ExtractCase) (o hx.Outcome) {
 	}
 	prefix, st := newState(objs, c.K, srvMode)
 	defer dropState(prefix)
-	args := []string{"extract"}
+	args := append(append([]string(nil), global...), "extract")
 	if c.Inplace {
 		args = append(args, "-k")
 	}
@@ -440,6 +454,11 @@ func runExtract(c ExtractCase) (o hx.Outcome) {
 		o.Key += fmt.Sprintf("/%s/%d/%s", c.Syscall, c.When, c.Errno)
 	}
 	o.Class("extract", "extract:death="+c.Death, "extract:prior="+c.Prior)
+	if sha {
+		o.Class("extract:digest=sha256")
+		o.Desc.(map[string]any)["digest"] = "sha256"
+		o.Key += "/sha256"
+	}
 	if c.Inplace {
 		o.Class("extract:inplace")
 	} else {
@@ -569,9 +588,12 @@ func runExtract(c ExtractCase) (o hx.Outcome) {
 	if np > 0 && np < len(positions) {
 		o.Class("extract:rerun-with-some-present")
 	}
+	if sha && np > 0 { // the re-run has something it must not fetch again
+		o.Class("extract:digest=sha256:inplace-rerun")
+	}
 	prefix2, st2 := newState(objs, 0, "kill")
 	defer dropState(prefix2)
-	args2 := []string{"extract", "-k", "-n", strconv.Itoa(c.N), "-s", "http://" + srvAddr + "/" + prefix2 + "/", index, out}
+	args2 := append(append([]string(nil), global...), "extract", "-k", "-n", strconv.Itoa(c.N), "-s", "http://"+srvAddr+"/"+prefix2+"/", index, out)
 	res2, _ := runDesync(work, args2, st2, false)
 	close(st2.release)
 	final := statFile(out)
